@@ -1,3 +1,4 @@
+import LokyModel.Lemmas.ExecTerm
 import LokyModel.Lemmas.ExecSticky
 import LokyModel.Lemmas.ExecFut
 /-!
@@ -133,5 +134,34 @@ example : ∃ s, Reachable { maxWorkers := 1, timeout := false, tasks := [{}], s
     s.mpc = .wait [100] ∧ isDead s 100 = true := by
   refine ⟨_, (reachable_iff_run _ _).2 ⟨[(.U 0, .ok), (.U 0, .ok), (.U 0, .ok), (.U 0, .ok), (.U 0, .ok),
     (.U 0, .ok), (.U 0, .ok), (.U 0, .ok), (.M, .ok), (.M, .ok), (.M, .ok), (.W 100, .crash)], rfl⟩, ?_, ?_⟩ <;> rfl
+
+
+/-! ### whole-run statements -/
+
+/-- **After `terminate_broken` no future is left pending.**  In the state right after the manager failed the
+    pending work items, every future this executor ever handed out is resolved — and the table is empty. -/
+theorem C02_after_break_all_resolved (cfg : Cfg) (s s' : St) (b : Broken) (h : Reachable cfg s)
+    (hpc : s.mpc = .brkRel b) (hs : stepM s .ok = some s') (i : Wid) (hi : i < s'.futs.length) :
+    (futOf s' i).done = true ∧ s'.pending = [] := by
+  have hr : Reachable cfg s' := Reachable.step (a := .M) h (by simpa [step] using hs)
+  have ht : mTerm s'.mpc = true := by
+    rw [C02_brkRel_step s b hpc] at hs; cases hs; simp
+  have hp := termInv_reachable hr ht
+  exact ⟨(futInv_reachable hr).resolved i hi (by rw [hp]; simp), hp⟩
+
+/-- **Futures that resolved before the death keep their outcome** — and so does every future once resolved:
+    along every schedule from any reachable state, a resolved future never changes again (no second
+    `set_result` / `set_exception`, no overwriting by the broken-pool error, by a late result or by `cancel`). -/
+theorem C02_resolved_keep_outcome (cfg : Cfg) (s s' : St) (sched : List (Actor × Variant)) (h : Reachable cfg s)
+    (hr : run s sched = some s') (i : Wid) (hd : (futOf s i).done = true) : futOf s' i = futOf s i :=
+  done_sticky_run sched s s' h hr i hd
+
+/-- **No fabricated value**: a future holds a value (or a task's own exception) only if the body of *its* work
+    id was started — exactly once. -/
+theorem C02_no_fabricated_value (cfg : Cfg) (s : St) (h : Reachable cfg s) (i : Wid)
+    (hv : futOf s i = .value ∨ futOf s i = .excWorker) : s.execW.count i = 1 := by
+  have h1 := (futInv_reachable h).executed i hv
+  have h2 := (tokInv_reachable h).once i
+  omega
 
 end LokyModel.Exec
